@@ -207,6 +207,30 @@ pub fn run(tape: &[u8], ctx: &mut Ctx) {
 			if stats.borrowed_str + stats.borrowed_bytes > 0 {
 				ctx.violation("C03/borrow-from-reader", "borrowed delivery from a reader input");
 			}
+			// a target that does not want one sub-tree (a struct lacking a field, IgnoredAny):
+			// still a valid decoding, the rest of the value must come out unchanged
+			if t.chance(64) {
+				let total = count_nodes_value(&env, &case.schema, &value);
+				let n = (t.u16() as usize * total) >> 16;
+				let mut counter = 0;
+				let mut skipped = None;
+				let expected = replace_nth(&env, &case.schema, &value, n, &mut counter, &mut skipped);
+				let mut cfg2 = cfg.clone();
+				cfg2.option_mode = false;
+				let mut cctx = CapCtx::new(&env, cfg2, Some(&bytes));
+				cctx.skip_at = Some(n);
+				let mut st = DeserializerState::from_slice(&bytes, &case.crate_schema);
+				let r = cctx.seed(&case.schema).deserialize(st.deserializer());
+				ctx.label("target:ignores-one-subtree");
+				match r {
+					Ok(v) => {
+						if !v.same(&expected) {
+							ctx.violation("C03/valid-encoding-wrong-value/ignoring-target", format!("schema {} bytes {} ignoring node {n} ({:?}): expected {:?} got {:?}", case.json, hex(&bytes), skipped.map(|s| s.0), expected, v));
+						}
+					}
+					Err(e) => ctx.violation("C03/valid-encoding-rejected/ignoring-target", format!("schema {} bytes {} value {:?} ignoring node {n} ({:?}): {e}", case.json, hex(&bytes), value, skipped.map(|s| s.0))),
+				}
+			}
 		}
 		Some(m) => {
 			let bad = apply_malform(&bytes, m);
